@@ -42,3 +42,66 @@ Theorem merge_sorted : forall cmp sched, (forall l, Permutation (sched l) l) ->
   forall ts, Forall (fun t => wf_tree t = true) ts -> sorted (merge cmp sched ts).
 Proof. exact merge_sorted_top. Qed.
 Print Assumptions merge_sorted.
+
+From Verif.C12 Require Import Proofs2 Proofs3 Examples.
+
+(* merging one tree, a tree with itself, or any number k+1 of copies returns the tree (no
+   well-formedness needed) *)
+Theorem merge_single : forall cmp sched, (forall l, Permutation (sched l) l) -> forall t, merge cmp sched [t] = t.
+Proof. exact merge_single_top. Qed.
+Print Assumptions merge_single.
+
+Theorem merge_idempotent : forall cmp sched, (forall l, Permutation (sched l) l) -> forall t, merge cmp sched [t; t] = t.
+Proof. exact merge_idempotent_top. Qed.
+Print Assumptions merge_idempotent.
+
+Theorem merge_copies : forall cmp sched, (forall l, Permutation (sched l) l) ->
+  forall k t, merge cmp sched (repeat t (S k)) = t.
+Proof. exact merge_repeat_top. Qed.
+Print Assumptions merge_copies.
+
+(* REWRITE.  For every exclusion predicate (the glob matcher's verdict on (path, is_dir)) and every node
+   modification that only touches metadata and reports a change whenever it makes one: the tree of the
+   rewritten snapshot is the input with exactly the matched nodes (and everything below a matched
+   directory) removed — `prune` — and nothing else changed: listed as (path, node without subtree)
+   pairs, the result is the list of the input's pairs whose path has no matched prefix (`kept`), each
+   node passed through the modification. *)
+Theorem rewrite_removes_exactly_excluded : forall excl modn,
+  (forall n, n_name (fst (modn n)) = n_name n /\ n_kind (fst (modn n)) = n_kind n /\
+             n_content (fst (modn n)) = n_content n /\ n_sub (fst (modn n)) = n_sub n) ->
+  (forall n, snd (modn n) = false -> fst (modn n) = n) ->
+  forall path t, excl path true = false ->
+    let r := result_tree t (rewrite_tree excl modn path t) in
+    r = prune excl modn path t /\
+    map (fun pn => (fst pn, strip (snd pn))) (paths path r) =
+    map (fun pn => (fst pn, strip_mod modn (snd pn))) (kept excl path t).
+Proof. exact rewrite_top. Qed.
+Print Assumptions rewrite_removes_exactly_excluded.
+
+(* REPAIR.  Nothing missing (every chunk of every file indexed, every subtree readable) => the
+   modifier reports Unchanged for the root: no tree is written and the snapshot is not touched. *)
+Theorem repair_identity_on_intact : forall has_data mark resize readable t,
+  intact has_data readable t = true -> repair_tree has_data mark resize readable t = Unchanged.
+Proof. exact repair_identity_lemma. Qed.
+Print Assumptions repair_identity_on_intact.
+
+(* Every regular file of the repaired tree is either an original file at the same path with the same
+   name and exactly its original chunk list, all of whose chunks are present — or the marked (renamed)
+   remainder of an original file that had a missing chunk, holding exactly the present chunks. *)
+Theorem repair_kept_files_intact : forall has_data mark resize readable t,
+  files_ok has_data mark (paths [] t) (paths [] (result_tree t (repair_tree has_data mark resize readable t))).
+Proof. exact repair_kept_files_lemma. Qed.
+Print Assumptions repair_kept_files_intact.
+
+(* COPY.  The requests of copy (`needed`: reachable from the snapshots, not in the destination's typed
+   index, known to the source) go through the two packers sharing one indexer (the C13 transition
+   system; `indexer_typed` is read from the source).  For EVERY complete interleaving: if the source is
+   closed, every (type, id) reachable from a copied snapshot is in the destination index afterwards.
+   No NoCrossTypeCollision premise: the proof uses that Indexer.indexed is typed. *)
+Theorem copy_closed : forall tid src dst snaps es s,
+  (forall b, In b (flat_map (reach tid) snaps) -> has src b = true) ->
+  Verif.C13.Model.run Verif.C13.Model.init es = Some s -> Verif.C13.Model.final s = true ->
+  (forall b, In b (needed tid src dst snaps) -> In (conv b) (Verif.C13.Model.requested s)) ->
+  forall b, In b (flat_map (reach tid) snaps) -> has (dst ++ indexed_blobs s) b = true.
+Proof. exact copy_closed_lemma. Qed.
+Print Assumptions copy_closed.
